@@ -2,14 +2,21 @@ package main
 
 import (
 	"github.com/cedar-policy/cedar-go/verifharness/c05"
+	"github.com/cedar-policy/cedar-go/verifharness/c11"
 	"github.com/cedar-policy/cedar-go/verifharness/c14"
 	"github.com/cedar-policy/cedar-go/verifharness/c18"
+	"github.com/cedar-policy/cedar-go/verifharness/c19"
+	"github.com/cedar-policy/cedar-go/verifharness/c20"
 	"github.com/cedar-policy/cedar-go/verifharness/core"
 )
 
 func main() {
 	core.Register(c05.Prop{})
+	core.Register(c11.Prop{})
 	core.Register(c14.Prop{})
 	core.Register(c18.Prop{})
+	core.Register(c19.Prop{})
+	core.Register(c20.Prop{})
+	core.RegisterCommand("race-c19", c19.RaceMain)
 	core.Main()
 }
